@@ -237,6 +237,26 @@ func checkC12(c *run.Ctx) {
 			sp.PlugCfg = append(sp.PlugCfg, c12Val{Map: []c12KV{{K: "{{matrix." + dims[1] + "}}", V: c12Val{S: &vb}}, {K: "{{matrix." + dims[0] + "}}", V: c12Val{S: &va}}, {K: "plain", V: c12Val{S: &va}}}})
 			c.Count("token_key_chains_planted", 1)
 		}
+		if i%67 == 3 {
+			// strings of 64 KiB and beyond (an embedded certificate, a script) with tokens at both ends, in every
+			// container position: env value, plugin config value, list element and nested value of an unknown field
+			long := func() c12Val {
+				d := dims[r.IntN(len(dims))]
+				t := "{{matrix." + d + "}}"
+				if d == "" {
+					t = "{{matrix}}"
+				}
+				uid++
+				s := t + strings.Repeat("p", []int{65535, 65536, 65537, 70000, 200000}[r.IntN(5)]-len(t)) + t + fmt.Sprintf("#%d", uid)
+				return c12Val{S: &s}
+			}
+			sp.EnvNames = append(sp.EnvNames, "LONG_VALUE")
+			sp.EnvVals = append(sp.EnvVals, *long().S)
+			sp.PlugSources = append(sp.PlugSources, "long#v1")
+			sp.PlugCfg = append(sp.PlugCfg, c12Val{Map: []c12KV{{K: "cert", V: long()}, {K: "list", V: c12Val{List: []c12Val{long()}}}}})
+			sp.Extras = append(sp.Extras, c12KV{K: "long_extra", V: c12Val{Map: []c12KV{{K: "nested", V: c12Val{List: []c12Val{long()}}}}}})
+			c.Count("steps_with_strings_of_64KiB_and_beyond", 1)
+		}
 		if unknownMode {
 			tok := "{{matrix.nosuchdim}}"
 			if !anon && r.IntN(2) == 0 {
@@ -338,8 +358,9 @@ func checkC12(c *run.Ctx) {
 			c.Sample(map[string]any{"permutation": perm, "command_before": sp.Command, "command_after": step.Command})
 		}
 	})
+	c12ParsedPhase(c)
 	c.Finish("exploration",
-		"random command steps built from a specification listing every string; tokens (with inner whitespace), near misses and plain text are planted at every position class (command, label, plugin sources, plugin config keys/values at depth incl. maps of 9-16 entries whose keys are renamed, env values, extra keys/values) and in out-of-scope positions (env names, key, matrix, signature); dimension names over [A-Za-z0-9_.-]; permutation values include token-shaped and $-bearing strings; every tenth case plants a token for a missing dimension; the expected step is the specification mapped through a hand-written single-pass scanner. distinct_nontrivial counts distinct (dimension count, anonymous, plugins, extras, env entries, unknown-token position) shapes",
+		"random command steps built from a specification listing every string; tokens (with inner whitespace), near misses and plain text are planted at every position class (command, label, plugin sources, plugin config keys/values at depth incl. maps of 9-16 entries whose keys are renamed, env values, extra keys/values) and in out-of-scope positions (env names, key, matrix, signature); dimension names over [A-Za-z0-9_.-]; permutation values include token-shaped and $-bearing strings; every tenth case plants a token for a missing dimension; the expected step is the specification mapped through a hand-written single-pass scanner. a second phase parses YAML documents in which anchored values carrying tokens are referenced by several aliases in unknown fields of one and of several steps, interpolates the steps in a random order and compares each with the scanner applied to the JSON form of a pristine twin, immediately and again after all siblings were interpolated. distinct_nontrivial counts distinct (dimension count, anonymous, plugins, extras, env entries, unknown-token position) shapes",
 		nil,
 		[]string{"whether `cache` is in scope is not asserted", "atomicity on the unknown-token failure is not asserted", "whitespace inside braces is the ASCII set space, tab, LF, CR, FF"})
 }
